@@ -303,7 +303,8 @@ PROPS = {
                       "schedule cap; capped configurations get the first schedules in DFS order plus seeded random ones; larger "
                       "random configurations are sampled. Real OS threads, real mutexes; the scheduler only decides who runs.",
         "technique": "controlled-scheduler runtime monitoring: stateless schedule exploration + linearizability checker + "
-                     "released-buffer monitor + deadlock monitor",
+                     "released-buffer monitor + deadlock monitor; Miri (data-race detector, borrow tracker, deadlock detector) "
+                     "on real threads over the Rust List API",
         "rule": "case = one configuration (element type, thread programs, initial aliasing); evaluations = schedules executed; "
                 "events = hook events observed; distinct = distinct configuration; non-trivial = at least two schedules with "
                 "different interleavings were executed and checked",
@@ -323,7 +324,7 @@ PROPS = {
                         "yield points are the lock acquisitions and element callbacks: code between two of them is "
                         "thread-local (holds for the current list.rs; a lock-free shared access would be invisible)"],
         "min_tags": 20,
-        "budget": {"quick": 300, "thorough": 1500},
+        "budget": {"quick": 700, "thorough": 2400},
     },
     "C04": {
         "claim": "Exhaustive cross-product monitor over a finite catalogue: for every pair (script type term, requested Rust type "
@@ -438,7 +439,9 @@ PROPS = {
                 "or in a branch and after it); recursive function groups of size 1-3 with a "
                 "decreasing depth parameter; random identifier spellings; 20% with an injected cycle (self, mutual, through "
                 "functions / recursive groups), 20% with a context read in 7 syntactic forms (direct, through functions, through "
-                "recursive groups), with and without a context type on the runtime; every case is non-trivial",
+                "recursive groups), with and without a context type on the runtime; half of the graphs hold 1-2 constants of a zero-sized "
+                "type ((), or a record whose fields are all ()) whose initialiser only has an effect (zinit(id)), in four forms, "
+                "optionally mentioning a constant and mentioned by one: once each, in dependency order; every case is non-trivial",
         "jobs": [
             {"family": "constorder", "flavour": "release", "cases": {"quick": 12000, "thorough": 300000}},
             {"family": "constorder", "flavour": "debug", "cases": {"quick": 1500, "thorough": 30000}, "args": {"stream": "debug"}},
